@@ -70,6 +70,19 @@ Definition run_match (args : list (list byte)) : list byte :=
   | _ => s2b "BADCASE"
   end.
 
+(* MATCHU: the question type is QTYPE::TYPE(TYPE::from(qt)) built directly *)
+Definition run_matchu (args : list (list byte)) : list byte :=
+  match map hex_to_N args with
+  | [Some rt; Some rc; Some qt; Some qc] =>
+    match class_of_code rc, qclass_of_code qc with
+    | Ok k, Ok q =>
+      unwords [ty_tok (type_of_code rt); bool_tok (match_qtype (type_of_code rt) (QT (type_of_code qt)));
+               bool_tok (match_qclass k q)]
+    | _, _ => s2b "BADCASE"
+    end
+  | _ => s2b "BADCASE"
+  end.
+
 (* ---- header cases (C08) ---- *)
 Definition flags7 (h : header) : list byte := List.concat (map (fun f => bool_tok (has_flags h f)) all_flags).
 Definition hdr_tok (h : header) : list byte :=
@@ -725,6 +738,7 @@ Definition run_line (line : list byte) : list byte :=
     if tok_eqb cmd "CODE" then run_codes args
     else if tok_eqb cmd "MATCH" then run_match args
     else if tok_eqb cmd "MATCHN" then run_matchn args
+    else if tok_eqb cmd "MATCHU" then run_matchu args
     else if tok_eqb cmd "RRMATCH" then run_rrmatch args
     else if tok_eqb cmd "HDR" then run_hdr args
     else if tok_eqb cmd "PARSE" then run_parse args
